@@ -499,4 +499,59 @@ func init() {
 	}
 }
 
+// package-history: long histories of package updates on a sliced package, with the system settling (more or less)
+// between edits: revisions get rolled out, paused, archived and pruned, slices are added and dropped, slice GC runs
+// with archived revisions around (C14 "histories of package updates that add and drop slices", C08 via the Package).
+func init() {
+	extraDrivers["package-history"] = func(w *World, _ *flag.FlagSet, a driverArgs) int {
+		each := map[string]string{"packages.package-operator.run/chunking-strategy": "EachObject"}
+		imgs := []string{"img/valid:v1", "img/valid:v2", "img/templated:v1", "img/kube1:v1"}
+		for i := 0; i < a.n; i++ {
+			if i%a.shards != a.shard {
+				continue
+			}
+			seed := a.seed*100019 + int64(i)
+			rng := rand.New(rand.NewSource(seed))
+			w.AnnotationPhases = false
+			w.Reset(fmt.Sprintf("pkg-history/seed=%d", seed))
+			p := NewPackage("p1", imgs[rng.Intn(2)], nil)
+			if i%4 != 3 {
+				p.Annotations = each
+			}
+			w.EnvCreate(p)
+			rounds := func(n int) {
+				for r := 0; r < n; r++ {
+					rcs := w.Reconcilables()
+					rng.Shuffle(len(rcs), func(x, y int) { rcs[x], rcs[y] = rcs[y], rcs[x] })
+					for _, rc := range rcs {
+						if w.Store.Snapshot(rc[1].(Key)) == nil {
+							continue
+						}
+						ps := w.RunPass(rc[0].(string), rc[1].(Key))
+						w.NotePackage(ps)
+					}
+					for _, k := range sortedKeys(w.ListedObjects()) {
+						if k.Kind == "Widget" && w.Store.Snapshot(k) != nil && probeClass(w.Store.Snapshot(k)) != "Ready" && rng.Intn(4) != 0 {
+							w.EnvSetWidgetStatus(k, "Ready")
+						}
+					}
+					w.EnvGC()
+				}
+			}
+			rounds(2 + rng.Intn(6))
+			for e := 0; e < a.steps; e++ {
+				switch rng.Intn(5) {
+				case 0:
+					w.EnvSetPackageConfig(KPK("p1"), []map[string]any{nil, {"size": 7}, {"size": 9}}[rng.Intn(3)])
+				default:
+					w.EnvSetPackageImage(KPK("p1"), imgs[rng.Intn(len(imgs))])
+				}
+				rounds(1 + rng.Intn(8))
+			}
+			rounds(8)
+		}
+		return 0
+	}
+}
+
 var _ = strings.TrimSpace
